@@ -37,15 +37,17 @@
 /*============================================================================*/
 
 void fb2_slv(fb2_t c, const fb2_t a) {
+	/* (c_0 + c_1 * s)^2 + (c_0 + c_1 * s) = (c_0^2 + c_0 + c_1^2) +
+	 * (c_1^2 + c_1) * s, because s^2 = s + 1. */
+	dig_t t = fb_trc(a[0]);
 	/* Compute c_0 = a_0 + a_1. */
 	fb_add(c[0], a[0], a[1]);
 	/* Compute c_1^2 + c_1 = a_1. */
 	fb_slv(c[1], a[1]);
-	/* Compute c_0 = a_0 + a_1 + c_1 + Tr(c_1). */
+	/* Choose the root with Tr(c_1) = Tr(a_0), so that the equation for c_0
+	 * below has a solution (Tr(a_1) = 0 and Tr(1) = 1 as m is odd). */
+	fb_add_dig(c[1], c[1], fb_trc(c[1]) ^ t);
+	/* Compute c_0^2 + c_0 = a_0 + c_1^2 = a_0 + a_1 + c_1. */
 	fb_add(c[0], c[0], c[1]);
-	fb_add_dig(c[0], c[0], fb_trc(c[1]));
-	/* Make Tr(c_0) = 0. */
 	fb_slv(c[0], c[0]);
-	/* Compute c_0^2 + c_0 = c_0. */
-	fb_add_dig(c[1], c[1], fb_trc(c[1]));
 }
